@@ -1,0 +1,53 @@
+//go:build verif
+
+package res
+
+import "sync"
+
+// VerifHook is called at every simulation yield point when set. It is only
+// present in builds with the verif tag and is used by the deterministic
+// simulator to decide which goroutine proceeds.
+var VerifHook func(point, arg string)
+
+func simYield(point, arg string) {
+	if h := VerifHook; h != nil {
+		h(point, arg)
+	}
+}
+
+// simYieldUnlocked releases l while yielding, so that no goroutine is ever
+// parked with the lock held.
+func simYieldUnlocked(l sync.Locker, point string) {
+	if h := VerifHook; h != nil {
+		l.Unlock()
+		h(point, "")
+		l.Lock()
+	}
+}
+
+// VerifQueueState is a read-only snapshot of the worker queue machinery.
+type VerifQueueState struct {
+	State        int32
+	QueueNil     bool
+	QueueLen     int
+	Registered   int
+	PendingTotal int
+	ConnNil      bool
+}
+
+// VerifQueueState returns a snapshot of the queue state.
+func (s *Service) VerifQueueState() VerifQueueState {
+	s.mu.Lock()
+	defer s.mu.Unlock()
+	st := VerifQueueState{
+		State:      s.state,
+		QueueNil:   s.workqueue == nil,
+		QueueLen:   len(s.workqueue),
+		Registered: len(s.rwork),
+		ConnNil:    s.nc == nil,
+	}
+	for _, w := range s.rwork {
+		st.PendingTotal += len(w.queue)
+	}
+	return st
+}
